@@ -80,12 +80,14 @@ def marg_case(kind, D, R, dims, semi=(), timeout=300):
     return Case(cid, PROP, cfg, declare, fn, claims, timeout=timeout)
 
 
-def linsum_case(D, Dsum, R, with_b, semi=(), timeout=400):
-    cid = f"C05/linear_sum/D{D}Dsum{Dsum}R{R}/b{int(with_b)}" + ("/semi-" + "-".join(semi) if semi else "")
-    cfg = dict(op="get_density_of_linear_sum", D=D, Dsum=Dsum, R=R, with_b=with_b, concrete_blocks=list(semi))
+def linsum_case(D, Dsum, R, with_b, semi=(), timeout=400, kind="pdf"):
+    cid = f"C05/linear_sum/D{D}Dsum{Dsum}R{R}/b{int(with_b)}" + ("/semi-" + "-".join(semi) if semi else "") + ("/diag-source" if kind == "diagpdf" else "")
+    cfg = dict(op="get_density_of_linear_sum", D=D, Dsum=Dsum, R=R, with_b=with_b, concrete_blocks=list(semi), source=kind)
 
     def declare(b):
-        if "S" in semi:
+        if kind == "diagpdf":
+            b.diag("S", R, D)
+        elif "S" in semi:
             b.const("S", b.rat_spd(R, D))
         else:
             b.spd("S", R, D)
@@ -110,7 +112,7 @@ def linsum_case(D, Dsum, R, with_b, semi=(), timeout=400):
 
     def fn(**A):
         factor, measure, pdf, conditional = gt()
-        p = pdf.GaussianPDF(Sigma=A["S"], mu=A["mu"])
+        p = (pdf.GaussianDiagPDF if kind == "diagpdf" else pdf.GaussianPDF)(Sigma=A["S"], mu=A["mu"])
         q = p.get_density_of_linear_sum(A["W"], A["bb"] if with_b else None)
         return {"eval": q.evaluate_ln(A["z"]), "f": fields(q)}
 
@@ -155,6 +157,10 @@ def cases(tier, seed=0):
         out.append(linsum_case(2, 2, 1, wb, semi=("W",)))
         out.append(linsum_case(2, 2, 2, wb, semi=("S",)))
         out.append(linsum_case(3, 2, 1, wb, semi=("W",)))
+        # a diagonal density as the source: the image is NOT diagonal in general
+        out.append(linsum_case(2, 2, 2, wb, kind="diagpdf"))
+        out.append(linsum_case(3, 2, 1, wb, kind="diagpdf", semi=("W",)))
+        out.append(linsum_case(2, 1, 2, wb, kind="diagpdf"))
     if tier == "thorough":
         out.append(linsum_case(3, 2, 2, True, semi=("S",), timeout=1800))
         out.append(linsum_case(3, 3, 1, True, semi=("W",), timeout=1800))
